@@ -111,6 +111,9 @@ var (
 // expression is not a simple `field OP literal` form.
 func tryFastCompare(expression string) *fastCompare {
 	if m := fastFieldOpNum.FindStringSubmatch(expression); m != nil {
+		if isExprLiteralWord(m[1]) {
+			return nil
+		}
 		n, err := strconv.ParseFloat(m[3], 64)
 		if err != nil {
 			return nil
@@ -126,6 +129,9 @@ func tryFastCompare(expression string) *fastCompare {
 		return &fastCompare{field: m[1], op: m[2], numLit: n}
 	}
 	if m := fastFieldOpStr.FindStringSubmatch(expression); m != nil {
+		if isExprLiteralWord(m[1]) {
+			return nil
+		}
 		// expr-lang unescapes string literals (\\, \n, \x41, ...), normalizes a carriage return
 		// to a newline and replaces invalid UTF-8 by U+FFFD. The raw text between the quotes is
 		// the literal's value only when none of that applies.
@@ -135,6 +141,12 @@ func tryFastCompare(expression string) *fastCompare {
 		return &fastCompare{field: m[1], op: m[2], strLit: m[3], isString: true}
 	}
 	return nil
+}
+
+// isExprLiteralWord reports whether expr-lang reads the identifier as a literal (nil, true,
+// false) instead of a field of the row; `nil == 1` must not look up a column named "nil".
+func isExprLiteralWord(name string) bool {
+	return name == "nil" || name == "true" || name == "false"
 }
 
 // eval evaluates the fast-path. The bool result is valid only when ok is true;
